@@ -15,10 +15,10 @@ NOT_APPLICABLE = {}
 chk("C04", "gbv/streamfsm+lifecycle",
     "SSA dataflow + dominance over parseEvents and Stream (position-cell invariant)",
     "Decides the inductive position invariant structurally, for every exit and every path rather than sampled runs: every one of the parser's "
-    "exits returns a fresh load of the position cell; the cell is advanced in the commit closure only on the handler-accepted edge; only "
+    "exits returns a fresh load of the position cell; the cell is advanced in the commit closure only on the handler-accepted edge, and every exit of commit after that edge has advanced it; only "
     "initialisation, commit and the rotate arm write it; Stream writes the parser's result back on every path and nothing else stores the resume "
     "position; the next attempt starts there; every accepted event reaches the dispatch (no way round the loop skips the checksum stripping except for the format description, "
-    "before a format is known, or for a kind without an arm), so no rotation or commit is lost to the cell. It does not decide what the master serves between attempts nor run any history.",
+    "before a format is known, or for a kind without an arm), so no rotation or commit is lost to the cell; the dump request carries the stored file and offset (C07-R3, included). It does not decide what the master serves between attempts nor run any history.",
     "sync/atomic.Value semantics; handler failures are signalled by the returned error.",
     "DESIGN.md 5/C04")
 
@@ -36,7 +36,7 @@ chk("C03", "gbv/streamfsm",
     "Decides how the labels are computed and that they chain: now = cell at closure entry, next = {same file, NextPosition() of the commit event, no arithmetic}, "
     "constructor parameter order, cell == next on the accepted exit, commit always receives the stripped current event, rotate stores Rotate()'s results, and every "
     "conversion on the offset chain is one of uint32->int64 / uint64->int64 / int64->uint32. The check includes C04-R2/R3/R6 (the cell moves only at an accepted commit and at a "
-    "rotation; every accepted event is dispatched), which the chaining needs. It does not decide what a master serves when resumed at a label.",
+    "rotation; every accepted event is dispatched) and C07-R3 (the request of the next attempt carries the stored file and the offset as uint32), which chaining and resumption need. It does not decide what a master serves when resumed at a label.",
     "none beyond the common base.",
     "DESIGN.md 5/C03")
 
@@ -61,7 +61,7 @@ chk("C17", "gbv/wirefmt+streamfsm",
 chk("C05", "gbv/lifecycle",
     "goroutine inventory, blocking-operation classification, a three-state publish/close automaton run as a set-valued dataflow with callee transfer functions, dominance (release on every exit), context provenance, who-writes-what for shared cells; VTA reachability in thorough",
     "Decides the structure that makes termination and cleanup hold under every timing: one goroutine; the handler unreachable from it; every blocking channel operation of the reader "
-    "escapable; every reader exit publishes then closes; connection close deferred on every exit after construction and the constructor hands the connection out only with a nil error (closing it otherwise); the reader's context derived in Stream with a deferred cancel; Error()'s "
+    "escapable; every reader exit publishes then closes; connection close deferred on every exit after construction and the constructor hands the connection out only with a nil error (closing it otherwise, after the driver connection has been stored in the object or directly); the reader's context derived in Stream with a deferred cancel; Error()'s "
     "receive nil-guarded and its channel always that of a started reader; shared cells and fields written only before the go statement; the parser's only wait is a select with ctx.Done(). "
     "It does not decide wall-clock bounds, stalls inside driver handshake calls, or data races inside the driver.",
     "driver facts listed in DESIGN section 2 (only Close unblocks ReadPacket); sync.Once / context / buffered channel semantics; handler and mapper return.",
@@ -97,7 +97,7 @@ chk("C18", "gbv/ownership",
     "taint fixpoint over SSA for receiver-derived memory + write-instruction check with in-package callee summaries",
     "Decides only the immutability clause and two structural preconditions of canonical form: no method of Mysql56GTIDSet (or in-package callee) writes storage reachable from its receiver; AddGTID's "
     "result map and the interval lists stored into it are allocated in the method; the parser sorts interval lists before storing them and SIDs() sorts its result; the comparators used for sorting "
-    "never decide by the sign of a difference that can wrap. Set-algebra agreement "
+    "never decide by the sign of a difference that can wrap; Contains never decides on the number of intervals the two sets hold nor accepts an interval by point lookups of its end points (two shortcuts that are wrong for some pair of sets). Set-algebra agreement "
     "(Contains/Equal/merge correctness) is a statement about values and is not decided.",
     "list of standard-library functions that write through arguments (ownership.go); other stdlib callees do not.",
     "DESIGN.md 5/C18")
@@ -106,7 +106,7 @@ chk("C19", "gbv/dispatch+ownership+wirefmt",
     "registry/implementer cross-check on go/types; write-through taint (as C18); transfer-token comparison of the SID-block writer and reader; separator and field-order agreement between String() and parsers",
     "Decides: every GTID/GTIDSet implementation's constant flavor has a registered parser returning that type; GTIDs are comparable value types; MariadbGTIDSet methods never write the receiver's "
     "storage; SIDBlock and its reader perform the same nested fixed-width little-endian transfers with matching end bias and PREVIOUS_GTIDS feeds the event body to the reader; printing and parsing "
-    "agree on separators and field order; lookups in a MariaDB set (unordered, one position per domain) are full scans - no order-assuming search, no index carried over from "
+    "agree on separators and field order; lookups in a MariaDB set (unordered, one position per domain) are full scans - no order-assuming search, no early exit on the order of domain ids, no index carried over from "
     "an enclosing loop. The round trips themselves are not decided.",
     "encoding/binary transfers the size of the static type.",
     "DESIGN.md 5/C19")
@@ -125,7 +125,7 @@ chk("C10", "gbv/cellcodec",
     "H-sccp specialisation per type + canonical value terms (H-term) compared with the documented decoding; operand provenance at the decoder call sites",
     "Decides API-usage and dependence facts without which the text cannot be exact: type, metadata, signedness, name and type are taken at one column ordinal; for each integer width the returns keyed "
     "by the unsigned flag are base-10 text of the little-endian value / of its two's-complement reinterpretation at exactly that width (INT24 sign bit and extension); FLOAT/DOUBLE use AppendFloat('f', -1, 32|64) "
-    "on the little-endian IEEE bits; YEAR, ENUM (also as CHAR real type), BIT and SET shapes; the per-type metadata layout of these types (C15-R5, included). The numeric results themselves (strconv, math) are trusted, not decided.",
+    "on the little-endian IEEE bits; YEAR, ENUM (also as CHAR real type), BIT and SET shapes; the per-type metadata layout of these types (C15-R5 and the length rule C09-R2 for these types, included). The numeric results themselves (strconv, math) are trusted, not decided.",
     "canonical terms are compared syntactically after normalisation; an algebraically different but equivalent decoder needs a table update.",
     "DESIGN.md 5/C10")
 
@@ -134,14 +134,14 @@ chk("C11", "gbv/cellcodec",
     "Decides necessary conditions for every valid (p,s): an integer digit is definitely written before the decimal point and before every success return (zero never decodes to an empty or sign-only value); no "
     "verb pads with spaces; the cursor of each 9-digit-group loop advances by 4 on every way round; after the "
     "'.' exactly the verbs %09d (s/9 times) and %0Nd (N = s mod 9) are reachable, fed by big-endian reads of the tabulated widths, and integer groups use only %09d/%d/strconv; dig2bytes is constant and equals "
-    "MySQL's table; the DECIMAL metadata layout (C15-R5, included). The digit arithmetic and negative inversion are not decided.",
+    "MySQL's table; the DECIMAL metadata layout (C15-R5 and the length rule C09-R2 for these types, included). The digit arithmetic and negative inversion are not decided.",
     "fmt verb semantics; strconv.AppendUint yields at least one digit.",
     "DESIGN.md 5/C11")
 
 chk("C12", "gbv/cellcodec",
     "H-sccp per (type, fsp) + reachable-format and argument-term checks; canonical value terms of the fixed layouts compared with the documented packings",
     "Decides: per fsp the only reachable fraction format prints exactly fsp digits of the big-endian fraction bytes (divided by 10 for odd fsp - for TIME2 as the last step, after the borrow for negative values); TIMESTAMP text comes from time.Unix in the local zone with "
-    "the fields in order and the documented zero literal, and no returned text lives in package-level storage (C08-R2, included); the fsp metadata layout (C15-R5, included); DATE/NEWDATE/DATETIME/DATETIME2/TIMESTAMP/TIMESTAMP2 extract their fields from the documented bit and decimal packings. TIME/TIME2 sign and hour "
+    "the fields in order and the documented zero literal, and no returned text lives in package-level storage (C08-R2, included); the fsp metadata layout (C15-R5 and the length rule C09-R2 for these types, included); DATE/NEWDATE/DATETIME/DATETIME2/TIMESTAMP/TIMESTAMP2 extract their fields from the documented bit and decimal packings. TIME/TIME2 sign and hour "
     "arithmetic and out-of-range rendering are not decided (a known mis-rendering of negative pre-5.6.4 TIME is outside static reach, see DESIGN).",
     "canonical terms are compared syntactically after normalisation.",
     "DESIGN.md 5/C12")
@@ -151,7 +151,7 @@ chk("C13", "gbv/cellcodec",
     "Decides: for VARCHAR/VAR_STRING/CHAR/blobs/GEOMETRY the value is the direct sub-slice after a prefix whose width follows the declared maximum (thorough: all 65536 metadata values, exhaustive); in the "
     "streamer absent/NULL/value are delivered as {IsEmpty}, {nil data}, {decoder result}, each appended exactly once, and IsEmpty is set nowhere else; the decoder can fail for a string cell only "
     "when the cell does not fit the buffer (never on content, never on an empty value at the end of the image); the column loops leave towards success only when the ordinal reached the column "
-    "count (trailing absent columns are delivered); ordinal/NULL-index bookkeeping of those loops (C09-R3) and the string types' metadata layout (C15-R5) are included. Byte equality with the master follows given a "
+    "count (trailing absent columns are delivered); ordinal/NULL-index bookkeeping of those loops (C09-R3), the agreement of the length rule with the decoder (C09-R2) and the metadata layout (C15-R5) of the string types are included. Byte equality with the master follows given a "
     "well-formed image and is not decided on its own.",
     "a sub-slice of a non-nil image is non-nil even when empty.",
     "DESIGN.md 5/C13")
@@ -160,7 +160,7 @@ chk("C15", "gbv/streamfsm+cellcodec+wirefmt",
     "must-pass-through and dominance on the table-cache arm; SCCP over 256 type codes for the three metadata siblings; SCCP over header-size classes and lenenc prefix classes with canonical terms; read-fact extraction of the table-map body",
     "Decides: the decoded map always reaches the cache entry of its own table id; insertion only on the equal edge of the column-count comparison, mismatch is an error; mapper asked for (Database, Name) "
     "and the name constructor keeps that order; rows arms use the entry of their own id and fail on a missing id; per-image count guards; metadataLength/Read/Write agree with each other and with MySQL's "
-    "per-type layout for all 256 codes; TableID/TableMap/Rows choose the table-id width identically; the table-map body is read at the documented offsets and nothing after the NULL bitmap is read; "
+    "per-type layout for all 256 codes; TableID/TableMap/Rows choose the table-id width identically; the table-map body is read at the documented offsets, nothing after the NULL bitmap is read and no failing exit depends on bytes remaining after it (optional metadata of newer masters); "
     "readLenEncInt composes exactly n little-endian bytes, advances by 1+n and bounds-checks. End-to-end decoding of arbitrary schemas is not decided.",
     "MySQL internals documentation of TABLE_MAP_EVENT and per-type metadata (spec tables in rules_c15.go).",
     "DESIGN.md 5/C15")
@@ -181,7 +181,7 @@ chk("C14", "gbv/dispatch+cellcodec",
     "Decides dispatch completeness and the layout rules of MySQL's binary JSON that do not depend on the document: exactly the declared type codes are handled (containers with the right size class), the "
     "opaque sub-dispatch handles exactly DATE/TIME/DATETIME/NEWDECIMAL on the size-prefixed payload, a value entry is inlined iff its payload fits the entry (2 bytes, 4 in the large format) with the same "
     "printer and width, every offset/size read uses the container's size class except the key length, entry stride 3/5, the offset reader composes 2/4 little-endian bytes, scalar printers render the "
-    "documented widths/signedness; the JSON column's metadata layout (C15-R5, included). Rendering of arbitrary documents (nesting, order, offsets, escaping, opaque arithmetic) is not decided.",
+    "documented widths/signedness; the JSON column's metadata layout (C15-R5 and the length rule C09-R2 for these types, included). Rendering of arbitrary documents (nesting, order, offsets, escaping, opaque arithmetic) is not decided.",
     "MySQL json_binary.cc layout constants encoded in rules_c14.go.",
     "DESIGN.md 5/C14")
 
